@@ -803,3 +803,13 @@ Definition outcome_eqb (a b : outcome) : bool :=
   | ORule r c x, ORule r' c' x' => Nat.eqb r r' && caps_eqb c c' && Bool.eqb x x'
   | _, _ => false
   end.
+
+(* ------------------------------------------------------------------ a sequence of requests *)
+
+(** Requests served one after the other by ONE instance of the loaded rule set.  The code keeps no state
+    between lookups (matchers, tree and rules are read-only after AddRuleSet), so the model of a sequence
+    is the map of the model of one request; that the implementation really behaves like this - that no
+    matcher remembers anything - is what the sequence stream of the check observes. *)
+Definition serve_seq (fx1 fx2 fx5 fx6 : bool) (fx7 : dec) (eng : engine) (es : list centry) (t : tree)
+           (qs : list request) : list (outcome * list call) :=
+  map (serve fx1 fx2 fx5 fx6 fx7 eng es t) qs.
